@@ -46,6 +46,7 @@ def alphabet():
         ('keepalive', T.enc_keepalive()),
         ('msg-reject', T.enc_reject(1, 3)),
         ('unknown-type', bytes([0x0A])),
+        ('unknown-type-0', bytes([0x00])),
     ]
 
 
@@ -85,7 +86,7 @@ class Ref(object):
                 return ('exact', (['SESS_INIT'] if self.role == 'passive' else []) + own)
             if name in ('keepalive', 'msg-reject'):
                 return ('exact', [])
-            if name == 'unknown-type':
+            if name in ('unknown-type', 'unknown-type-0'):
                 self.phase = 'desync'
                 return ('refusal',)
             return ('refusal',)
@@ -135,7 +136,7 @@ class Ref(object):
                 return ('exact+', [('SESS_TERM', 1)])
             if name in ('keepalive', 'msg-reject'):
                 return ('exact', [])
-            if name == 'unknown-type':
+            if name in ('unknown-type', 'unknown-type-0'):
                 self.phase = 'desync'
                 return ('refusal',)
         raise HarnessError('reference model has no rule for %s in %s' % (name, ph))
@@ -387,7 +388,7 @@ ASSUMPTIONS = [
     'a refusal may be MSG_REJECT, SESS_TERM or closing the connection',
 ]
 
-RULE = ('explicit-state BFS: every sequence of adversarial messages (19-message alphabet incl. bad headers, out-of-place '
+RULE = ('explicit-state BFS: every sequence of adversarial messages (20-message alphabet incl. bad headers, out-of-place '
         'and unknown-id messages, unknown type) up to the depth bound, in every reachable state of a real endpoint (passive and active role) '
         'holding one transfer of its own; reference receiver model decides expected ACKs/deliveries/refusals; an epilogue '
         'with a correct transfer in each direction is run from every in-session state')
